@@ -179,6 +179,10 @@ impl Evidence {
             // a run without a verdict leaves the previous evidence file alone
             return;
         }
+        if std::env::var("VERIF_NO_EVIDENCE").is_ok() {
+            // sensitivity runs against a deliberately broken tree (bin/try_mutant, bin/regress_mutants)
+            return;
+        }
         let mut cov = Map::new();
         cov.insert("evaluations".into(), json!(self.evaluations));
         cov.insert("distinct_nontrivial".into(), json!(self.distinct_nontrivial));
